@@ -191,7 +191,7 @@ func (c *connection) applicationStart(name gen.Atom, mode gen.ApplicationMode, o
 		Options: extra,
 		Ref:     ref,
 	}
-	ch := make(chan MessageResult)
+	ch := make(chan MessageResult, 1)
 	c.requestsMutex.Lock()
 	c.requests[ref] = ch
 	c.requestsMutex.Unlock()
@@ -230,7 +230,7 @@ func (c *connection) updateCache() error {
 		Ref: ref,
 		// put them here
 	}
-	ch := make(chan MessageResult)
+	ch := make(chan MessageResult, 1)
 	c.requestsMutex.Lock()
 	c.requests[ref] = ch
 	c.requestsMutex.Unlock()
@@ -958,7 +958,7 @@ func (c *connection) LinkPID(pid gen.PID, target gen.PID) error {
 		Ref:    ref,
 	}
 
-	ch := make(chan MessageResult)
+	ch := make(chan MessageResult, 1)
 	c.requestsMutex.Lock()
 	c.requests[ref] = ch
 	c.requestsMutex.Unlock()
@@ -984,7 +984,7 @@ func (c *connection) UnlinkPID(pid gen.PID, target gen.PID) error {
 		Target: target,
 		Ref:    ref,
 	}
-	ch := make(chan MessageResult)
+	ch := make(chan MessageResult, 1)
 	c.requestsMutex.Lock()
 	c.requests[ref] = ch
 	c.requestsMutex.Unlock()
@@ -1006,7 +1006,7 @@ func (c *connection) LinkProcessID(pid gen.PID, target gen.ProcessID) error {
 		Target: target,
 		Ref:    ref,
 	}
-	ch := make(chan MessageResult)
+	ch := make(chan MessageResult, 1)
 	c.requestsMutex.Lock()
 	c.requests[ref] = ch
 	c.requestsMutex.Unlock()
@@ -1029,7 +1029,7 @@ func (c *connection) UnlinkProcessID(pid gen.PID, target gen.ProcessID) error {
 		Target: target,
 		Ref:    ref,
 	}
-	ch := make(chan MessageResult)
+	ch := make(chan MessageResult, 1)
 	c.requestsMutex.Lock()
 	c.requests[ref] = ch
 	c.requestsMutex.Unlock()
@@ -1056,7 +1056,7 @@ func (c *connection) LinkAlias(pid gen.PID, target gen.Alias) error {
 		Target: target,
 		Ref:    ref,
 	}
-	ch := make(chan MessageResult)
+	ch := make(chan MessageResult, 1)
 	c.requestsMutex.Lock()
 	c.requests[ref] = ch
 	c.requestsMutex.Unlock()
@@ -1083,7 +1083,7 @@ func (c *connection) UnlinkAlias(pid gen.PID, target gen.Alias) error {
 		Target: target,
 		Ref:    ref,
 	}
-	ch := make(chan MessageResult)
+	ch := make(chan MessageResult, 1)
 	c.requestsMutex.Lock()
 	c.requests[ref] = ch
 	c.requestsMutex.Unlock()
@@ -1105,7 +1105,7 @@ func (c *connection) LinkEvent(pid gen.PID, target gen.Event) ([]gen.MessageEven
 		Target: target,
 		Ref:    ref,
 	}
-	ch := make(chan MessageResult)
+	ch := make(chan MessageResult, 1)
 	c.requestsMutex.Lock()
 	c.requests[ref] = ch
 	c.requestsMutex.Unlock()
@@ -1134,7 +1134,7 @@ func (c *connection) UnlinkEvent(pid gen.PID, target gen.Event) error {
 		Target: target,
 		Ref:    ref,
 	}
-	ch := make(chan MessageResult)
+	ch := make(chan MessageResult, 1)
 	c.requestsMutex.Lock()
 	c.requests[ref] = ch
 	c.requestsMutex.Unlock()
@@ -1159,7 +1159,7 @@ func (c *connection) MonitorPID(pid gen.PID, target gen.PID) error {
 		Target: target,
 		Ref:    ref,
 	}
-	ch := make(chan MessageResult)
+	ch := make(chan MessageResult, 1)
 	c.requestsMutex.Lock()
 	c.requests[ref] = ch
 	c.requestsMutex.Unlock()
@@ -1184,7 +1184,7 @@ func (c *connection) DemonitorPID(pid gen.PID, target gen.PID) error {
 		Target: target,
 		Ref:    ref,
 	}
-	ch := make(chan MessageResult)
+	ch := make(chan MessageResult, 1)
 	c.requestsMutex.Lock()
 	c.requests[ref] = ch
 	c.requestsMutex.Unlock()
@@ -1206,7 +1206,7 @@ func (c *connection) MonitorProcessID(pid gen.PID, target gen.ProcessID) error {
 		Target: target,
 		Ref:    ref,
 	}
-	ch := make(chan MessageResult)
+	ch := make(chan MessageResult, 1)
 	c.requestsMutex.Lock()
 	c.requests[ref] = ch
 	c.requestsMutex.Unlock()
@@ -1228,7 +1228,7 @@ func (c *connection) DemonitorProcessID(pid gen.PID, target gen.ProcessID) error
 		Target: target,
 		Ref:    ref,
 	}
-	ch := make(chan MessageResult)
+	ch := make(chan MessageResult, 1)
 	c.requestsMutex.Lock()
 	c.requests[ref] = ch
 	c.requestsMutex.Unlock()
@@ -1254,7 +1254,7 @@ func (c *connection) MonitorAlias(pid gen.PID, target gen.Alias) error {
 		Target: target,
 		Ref:    ref,
 	}
-	ch := make(chan MessageResult)
+	ch := make(chan MessageResult, 1)
 	c.requestsMutex.Lock()
 	c.requests[ref] = ch
 	c.requestsMutex.Unlock()
@@ -1280,7 +1280,7 @@ func (c *connection) DemonitorAlias(pid gen.PID, target gen.Alias) error {
 		Target: target,
 		Ref:    ref,
 	}
-	ch := make(chan MessageResult)
+	ch := make(chan MessageResult, 1)
 	c.requestsMutex.Lock()
 	c.requests[ref] = ch
 	c.requestsMutex.Unlock()
@@ -1302,7 +1302,7 @@ func (c *connection) MonitorEvent(pid gen.PID, target gen.Event) ([]gen.MessageE
 		Target: target,
 		Ref:    ref,
 	}
-	ch := make(chan MessageResult)
+	ch := make(chan MessageResult, 1)
 	c.requestsMutex.Lock()
 	c.requests[ref] = ch
 	c.requestsMutex.Unlock()
@@ -1331,7 +1331,7 @@ func (c *connection) DemonitorEvent(pid gen.PID, target gen.Event) error {
 		Target: target,
 		Ref:    ref,
 	}
-	ch := make(chan MessageResult)
+	ch := make(chan MessageResult, 1)
 	c.requestsMutex.Lock()
 	c.requests[ref] = ch
 	c.requestsMutex.Unlock()
@@ -1361,7 +1361,7 @@ func (c *connection) RemoteSpawn(name gen.Atom, options gen.ProcessOptionsExtra)
 		Ref:     ref,
 	}
 
-	ch := make(chan MessageResult)
+	ch := make(chan MessageResult, 1)
 	c.requestsMutex.Lock()
 	c.requests[ref] = ch
 	c.requestsMutex.Unlock()
